@@ -29,7 +29,10 @@ chk.extra['rule'] = ('writer histories: random sequences of deferred opens (mode
                      'close over 1-5 names incl. backup-shaped names and pre-existing backups; CLI: martinize2 runs on '
                      'tier-0 inputs x warning-raising options x -maxwarn. A case is non-trivial if a destination '
                      'pre-exists, or a crash point lies strictly inside finalisation, or it is a CLI run with >= 1 '
-                     'warning; distinct = distinct protocol line')
+                     'warning; distinct = distinct protocol line. CLI runs also cover every file-writing branch of entry() once blocked by '
+                     'the gate and once passed (see cli_branches), runs stopping before the gate, and per seed a few random '
+                     'combinations of the options that decide the set of files; white-box pending tables and direct calls of the '
+                     'library writers complete the stream')
 
 
 def extract_names():
@@ -113,6 +116,9 @@ except Exception as e:  # noqa  (the sources no longer have the shape the extrac
     chk.lean(["VermouthProps.C07", "VermouthProps.C07_Cli"], "driver_c07")
 chk.trusted.append('harness/c07.py: name <-> Path parser (#name.N# pattern), crash injection shims in the '
                    'vermouth.file_writer namespace, audit hook, oracle')
+chk.trusted.append('harness/c07_static.py: AST classification of file-writing calls and name-based reachability; the table '
+                   'ALLOWED_UNDEFERRED of accounted-for undeferred sites; the stand-in DSSP executable and the observation hooks '
+                   '(gate, write_gmx_topology, run_dssp) of the CLI runs')
 chk.assumptions.append('file-system steps (rename, create, append, unlink) are atomic; temp directory disjoint from '
                        'destinations; one directory; text-mode data is ASCII (CR included)')
 
@@ -1320,7 +1326,7 @@ def cli_eval_(j):
         errs.append('the gate computed %r leftover warnings, the closed form on the counter gives %d' % (r['gate_leftover'], left))
     if j['abort'] is None:
         if isinstance(r['code'], str):
-            errs.append('martinize2 raised %s %s' % (r['code'], r['exc']))
+            errs.append('martinize2 raised %s %s (martinize2 %s)' % (r['code'], r['exc'], ' '.join(argv)))
         elif not reached and not r['finalised'] and r['code'] != 0:
             errs.append('martinize2 exited with %s before the -maxwarn gate: %s' % (r['code'], r['log'][-300:]))
     else:
@@ -1591,7 +1597,7 @@ def random_job(i):
         k['water_bias'] = rng.random() < 0.3
         k['cost'] = 1.5
     elif r < 0.3:
-        ff = 'martini3001'
+        inp, ff = TRP, 'martini3001'
         k['water_bias'] = True
     elif r < 0.45:
         inp = chains_input(rng.choice(['dipro-termini', 'mini-protein3_trp-cage']), rng.choice(['AB', 'ABC']))
@@ -1611,6 +1617,10 @@ def random_job(i):
     if rng.random() < 0.15:
         k['dssp'] = rng.choice([DSSP_OK, DSSP_OLD] + (['mdtraj'] if HAVE_MDTRAJ else []))
         k['v'] = int(rng.random() < 0.3)
+        if k['dssp'] == 'mdtraj' and not inp.startswith(INPUTS):
+            # (mdtraj answers 'NA' for some residues of mini-protein2_helix, which stops martinize2 on a KeyError in
+            # convert_dssp_to_martini: not a matter of C07)
+            inp = rng.choice([TRP, BETA])
     else:
         extra += ['-ss', 'C']
     if rng.random() < 0.3:
